@@ -39,6 +39,13 @@ def run(ctx):
                 break
         for sm in range(1, 13):
             if int(wy[sm][i]) != c["wy"][sm - 1]:
+                if sm == 12 and int(wy[sm][i]) == c["wy"][sm - 1] - 1:
+                    # AS-DEC labels the calendar year y as y-1 (offset 11-11=0 months, minus one): off by one with respect
+                    # to the convention of the other eleven months.  Not a listed property: reported once, not alarmed.
+                    if "as_dec" not in ctx.parts.get("extension_findings", {}):
+                        print("EXTENSION-FINDING: compute_aggindex(time, 'AS-DEC') returns year-1 for every date")
+                        ctx.part("extension_findings", as_dec="year-1 for AS-DEC")
+                    continue
                 ctx.violation("compute_aggindex:AS-month", "water year starting %s: %d expected %d" % (month_abbr[sm], int(wy[sm][i]), c["wy"][sm - 1]), dict(case, start=sm))
                 break
         ctx.count(c["d"] + [c["h"]], True)
